@@ -63,7 +63,7 @@ def judge(ctx):
             ctx.label("%s:returned%s" % (g, ">0" if res else "0"))
 
 
-CFG = G.cfg(blocks=("cross", "cross", "multi"))
+CFG = G.cfg(blocks=("cross", "cross", "multi", "repeat", "merge", "nest"))
 P = D.DesignProperty(
     "C08", judge,
     rule=("case = generated design spec accepted by the block constructor (constructor rejections are discarded and "
